@@ -148,14 +148,17 @@ theorem readTL_at (r : Rd) (buf : Bytes) (p x : Nat) (t : Bytes) (h : At r buf p
 
 /-- natural / fixedUint value of `k` bytes -/
 theorem readNat_at (r : Rd) (buf : Bytes) (p k x w : Nat) (t : Bytes) (h : At r buf p)
-    (hb : buf.drop p = be k x ++ t) (hx : x < 256 ^ k) (hk : 256 ^ k ≤ u64) :
+    (hb : buf.drop p = be k x ++ t) (hx : x < 256 ^ k) (hk : 256 ^ k ≤ u64) (hlen : buf.length < 2 ^ 63) :
     ∃ r', readNat r k w = .ok (x % 2 ^ w, r') ∧ At r' buf (p + k) ∧ buf.drop (p + k) = t := by
   obtain ⟨hle, htk, hrest⟩ := drop_append_len h.2.2 hb
   rw [be_length] at hle htk hrest
   obtain ⟨r1, e1, a1, _⟩ := readBytesAcc_at R k r buf p 0 h hle
   refine ⟨r1, ?_, a1, hrest⟩
   have hg : ¬ (k > r.length - r.pos) := by rw [R.pos_eq r buf p h, R.length_eq r buf p h]; omega
-  simp [readNat, hg, e1, htk, accBytes_be k x hx hk]
+  have hneg : negInt k = false := by
+    have h62 : buf.length < 2 ^ 63 := hlen
+    simp [negInt]; omega
+  simp [readNat, hneg, hg, e1, htk, accBytes_be k x hx hk]
 
 theorem nameLoop_at : ∀ (n : Name) (fuel : Nat) (r : Rd) (buf : Bytes) (p : Nat) (acc : Name) (sigEnd : Nat) (t : Bytes),
     At r buf p → buf.drop p = encNameInner n ++ t → NameValid n → nameLen n < 2 ^ 62 → n.length ≤ fuel →
@@ -190,8 +193,7 @@ theorem nameLoop_at : ∀ (n : Name) (fuel : Nat) (r : Rd) (buf : Bytes) (p : Na
         (fun x hx => hv x (by simp [hx])) (by omega) (by simpa using hf)
       refine ⟨r4, ?_, by rw [hnl, ← Nat.add_assoc]; exact a4, by rw [hnl, ← Nat.add_assoc]; exact d4⟩
       have hlt : ¬ (p ≥ p + nameLen (c :: cs)) := by omega
-      have hoom : lenOutOfModel c.val.length = false := by simp [lenOutOfModel]; omega
-      simp only [nameLoop, hp, hlt, ↓reduceIte, e1, Res.bind_ok, e2, hoom, e3, htk3]
+      simp only [nameLoop, hp, hlt, ↓reduceIte, e1, Res.bind_ok, e2, e3, htk3]
       rw [hnl, ← Nat.add_assoc, e4]
       simp [sigEndAux]
 
@@ -213,8 +215,8 @@ theorem readNameField_at (r : Rd) (buf : Bytes) (p : Nat) (n : Name) (t : Bytes)
     have := this n; omega
   obtain ⟨r1, e1, a1, d1⟩ := nameLoop_at R n (nameLen n / 2 + 1) r buf p [] (p + nameLen n) t h hb hv hlen hfuel
   refine ⟨r1, ?_, a1, d1⟩
-  have hg : allocGuard r (nameLen n) = .ok () := by
-    simp [allocGuard, hp, hl]; intro h1; omega
+  have hg : lenGuard r (nameLen n) = .ok () := by
+    simp [lenGuard, hp, hl]; omega
   simp [readNameField, hg, hp, e1]
 
 /-- the generic TLV loop stops at the end of the buffer -/
@@ -237,9 +239,7 @@ theorem tlvLoop_step {σ : Type} (body : σ → Nat → Nat → Nat → Rd → R
     rw [encTL_length] at h1
     have := tlLen_pos ty
     omega
-  have hoom : lenOutOfModel l = false := by simp [lenOutOfModel]; omega
-  simp only [tlvLoop, R.pos_eq r buf p h, R.length_eq r buf p h, hlt, ↓reduceIte, e1, Res.bind_ok, e2, hoom]
-  rfl
+  simp only [tlvLoop, R.pos_eq r buf p h, R.length_eq r buf p h, hlt, ↓reduceIte, e1, Res.bind_ok, e2]
 
 end
 end Ndn.C03
